@@ -34,7 +34,7 @@ type c16 struct{ base }
 
 func init() {
 	core.Register(c16{base{id: "C16", race: true, level: "exploration", quickB: 16, thoroughB: 32,
-		rule:        "forced schedules = full product of connection state {idle, mid-message (header sent), a finished command followed in the same segment by part of the next message, parked at cmd:received, parked at cmd:admitted, inside parser, inside statement function, inside COPY read} x Close callers {1,2,3,8} x Close start {free, first arrivals parked at close:checked until all callers entered} x message kind {simple Query (single statement / three statements), Parse, Execute}, each on a fresh server (exhaustive in both tiers); after all Close calls returned a further query is sent on the same and on a new connection (boundary, no hooks). Stress = rounds of 1-16 connections firing queries while 1-4 goroutines call Close at PRNG-chosen moments, with random yields at every schedule point and transport operation, under the race detector. Non-trivial = schedule where Close overlaps an in-flight command or another Close; distinct = schedule tuple, for stress the hash of the global (actor,event) order.",
+		rule:        "forced schedules = full product of connection state {idle, mid-message (header sent), a finished command followed in the same segment by part of the next message, parked at cmd:received, parked at cmd:admitted, inside parser, inside statement function, inside COPY read} x Close callers {1,2,3,8} x Close start {free, first arrivals parked at close:checked until all callers entered} x message kind {simple Query (single statement / three statements), Parse, Execute}, each on a fresh server (exhaustive in both tiers); after all Close calls returned a further query is sent on the same and on a new connection (boundary, no hooks). Also 100-520 connections that stay open and idle while Close is called: Close and Serve must return while they are all still connected. Stress = rounds of 1-16 connections firing queries while 1-4 goroutines call Close at PRNG-chosen moments, with random yields at every schedule point and transport operation, under the race detector. Non-trivial = schedule where Close overlaps an in-flight command or another Close; distinct = schedule tuple, for stress the hash of the global (actor,event) order.",
 		need:        []string{"forced_schedules", "close_overlaps_running_handler", "close_overlaps_admission", "concurrent_close_groups", "post_close_queries", "stress_rounds", "race_detector_active_batches", "serve_returned_nil"},
 		assumptions: append([]string{"for several concurrent Close calls the wait/finality guarantees are asserted once all of them have returned; the settle period used before releasing a parked goroutine only affects detection power, never soundness"}, commonAssumptions...)}})
 }
@@ -643,6 +643,55 @@ func (ch c16) multiListener(c *core.Ctx, nl int) {
 	c.Eval(fmt.Sprintf("listeners=%d", nl), true)
 }
 
+func (ch c16) manyIdle(c *core.Ctx, n int) {
+	cs := map[string]any{"idle_connections": n}
+	e := &c16env{entered: make(chan string, 8)}
+	env := hs.Start(ch.parseFn(e))
+	var cls []*hs.Client
+	for i := 0; i < n; i++ {
+		cl := hs.NewClient(env.Dial(nil))
+		if err := cl.StartupOK("u"); err != nil {
+			c.Violate("startup", "startup failed", fmt.Sprintf("connection %d of %d: %v", i, n, err), cs)
+			return
+		}
+		cls = append(cls, cl)
+	}
+	closed := make(chan struct{})
+	go func() { env.Srv.Close(); close(closed) }()
+	stuck := func(what string) {
+		dump, lib := core.ClassifyHang()
+		if len(lib) > 0 {
+			c.Violate("deadlock", fmt.Sprintf("%s while %d idle connections are open: %s", what, n, strings.Join(lib, "; ")), trim(dump, 3000), cs)
+		} else {
+			c.Inconclusive("watchdog fired (many idle connections) without a library-blocked goroutine")
+		}
+		c.Finish()
+	}
+	select {
+	case <-closed:
+	case <-time.After(30 * time.Second):
+		stuck("Close never returned")
+		return
+	}
+	select {
+	case err := <-env.ServeErr:
+		if err != nil {
+			c.Violate("serve-error", "Serve returned a non-nil error after Close", err.Error(), cs)
+		}
+	case <-time.After(30 * time.Second):
+		stuck("Serve did not return after Close")
+		return
+	}
+	c.Count("close_with_many_idle_connections", 1)
+	c.Eval(fmt.Sprintf("many-idle %d", n), true)
+	for _, cl := range cls {
+		cl.C.CloseWrite()
+	}
+	for _, cl := range cls {
+		cl.C.WaitClosed()
+	}
+}
+
 func (ch c16) Run(c *core.Ctx) {
 	nb := ch.Batches(c.Tier)
 	tr.WatchdogTimeout = 30 * time.Second
@@ -678,6 +727,11 @@ func (ch c16) Run(c *core.Ctx) {
 			continue
 		}
 		ch.multiListener(c, nl)
+	}
+	// many connections that stay open and idle: Close returns, and so does Serve, while they are all
+	// still connected (the accept loop ends with the listener, not with the clients)
+	if c.Begin(70000) && c.NViol() < 10 {
+		ch.manyIdle(c, []int{100, 128, 257, 300, 520}[c.Batch%5])
 	}
 	rounds := 1600
 	if c.Tier == "thorough" {
